@@ -34,7 +34,29 @@ impl SocketAddr {
 }
 
 // ---- passage_adapters side ---------------------------------------------------------------------------------
-pub struct MetaMap {}
+//@include itermodel.rs
+/// `HashMap<String, String>` (target metadata): a finite map of the strings' contents. `iter()` yields every entry once,
+/// in an unspecified order; collecting into it inserts in order (a later entry with the same key replaces the earlier one).
+pub struct MetaMap { pub m: Ghost<Map<Seq<char>, Seq<char>>> }
+pub open spec fn pairs_map(s: Seq<(String, String)>) -> Map<Seq<char>, Seq<char>>
+    decreases s.len()
+{ if s.len() == 0 { Map::empty() } else { pairs_map(s.drop_last()).insert(s.last().0@, s.last().1@) } }
+pub open spec fn pairs_distinct(s: Seq<(String, String)>) -> bool { forall|i: int, j: int| 0 <= i < j < s.len() ==> s[i].0@ != s[j].0@ }
+impl VxIterRef for MetaMap {
+    type Item = (String, String);
+    open spec fn vx_ref_items_ok(&self, items: Seq<(String, String)>) -> bool { pairs_map(items) == self.m@ && pairs_distinct(items) }
+    #[verifier::external_body]
+    fn vx_iter(&self) -> (r: VxIter<(String, String)>) { unimplemented!() }
+}
+impl VxCollect for MetaMap {
+    type Item = (String, String);
+    open spec fn vx_is_empty(self) -> bool { self.m@ == Map::<Seq<char>, Seq<char>>::empty() }
+    open spec fn vx_pushed(self, before: Self, item: (String, String)) -> bool { self.m@ == before.m@.insert(item.0@, item.1@) }
+    #[verifier::external_body]
+    fn vx_new() -> (r: Self) { unimplemented!() }
+    #[verifier::external_body]
+    fn vx_push(&mut self, item: (String, String)) { unimplemented!() }
+}
 pub struct Cause {}
 #[verifier::external_body] pub fn vx_cause() -> Cause { unimplemented!() }
 /// R17: value of an iterator-adaptor chain (metadata conversion): unknown to the proof, nothing is claimed about it
@@ -70,6 +92,20 @@ impl Show for u32 { open spec fn shown(&self) -> Seq<char> { dec(*self as nat) }
 #[verifier::external_body] pub fn vx_fmt2(a: String, b: String) -> (r: String) ensures r@ == a@ + b@ { unimplemented!() }
 pub assume_specification<T>[<T as From<T>>::from](t: T) -> (r: T) ensures r == t;
 
+/// the metadata a list of wire entries denotes (`HashMap::from_iter`: in order, later wins)
+pub open spec fn entries_map(s: Seq<MetaEntry>) -> Map<Seq<char>, Seq<char>>
+    decreases s.len()
+{ if s.len() == 0 { Map::empty() } else { entries_map(s.drop_last()).insert(s.last().key@, s.last().value@) } }
+pub open spec fn entries_distinct(s: Seq<MetaEntry>) -> bool { forall|i: int, j: int| 0 <= i < j < s.len() ==> s[i].key@ != s[j].key@ }
+pub proof fn lemma_entries_pairs(e: Seq<MetaEntry>, p: Seq<(String, String)>)
+    requires e.len() == p.len(), forall|i: int| 0 <= i < e.len() ==> e[i].key@ == p[i].0@ && e[i].value@ == p[i].1@,
+    ensures entries_map(e) == pairs_map(p), pairs_distinct(p) ==> entries_distinct(e),
+    decreases e.len()
+{
+    if e.len() > 0 {
+        lemma_entries_pairs(e.drop_last(), p.drop_last());
+    }
+}
 /// C19: what a target looks like on the wire and what must come back
 pub open spec fn wire_of(t: passage_adapters::Target) -> (Seq<char>, Seq<char>, u32) { (t.identifier@, ip_text(t.address.ipaddr), t.address.portno as u32) }
 
